@@ -87,6 +87,10 @@ class _Cond:
             if v is not None and isinstance(r, ast.Constant) and isinstance(op, (ast.Eq, ast.NotEq, ast.Is, ast.IsNot)):
                 at = ("val", v, repr(r.value))
                 return at if isinstance(op, (ast.Eq, ast.Is)) else f_not(at)
+            if v is not None and isinstance(op, (ast.In, ast.NotIn)) and isinstance(r, (ast.Tuple, ast.List, ast.Set)) \
+                    and all(isinstance(x, ast.Constant) for x in r.elts):
+                f = f_or(*[("val", v, repr(x.value)) for x in r.elts])
+                return f if isinstance(op, ast.In) else f_not(f)
         return ("bool", self.text(e))
 
 
